@@ -27,7 +27,7 @@ Prob(e) == [n |-> e.p.n, cls |-> e.p.cls, s |-> InRat(e.p.s), zs |-> { e.p.zs[j]
             sp |-> Ev([i \in 1..Len(e.p.sp) |-> InRat(e.p.sp[i])])]
 Opts(e) == [api |-> e.o.api, sparse |-> e.o.sparse, num |-> e.o.num, sort |-> e.o.sort,
             reduced |-> e.o.reduced, pos |-> e.o.pos]
-Start(e, i) == InitState(Prob(e), Opts(e), DevSet(i))
+Start(e, i) == [InitState(Prob(e), Opts(e), DevSet(i)) EXCEPT !.kobs = IF e.obs.exc = "" THEN e.obs.nvals ELSE 0]
 
 (* ---- observed numbers.  A double is <<s, limbs, e>>; s = 9 / -9 / 7 encodes +inf / -inf / nan ---- *)
 IsFin(d) == d[1] \in {-1, 0, 1}
